@@ -52,6 +52,8 @@ impl Flusher {
 
         // Use async I/O for directory creation
         fs::create_dir_all(&segment_dir).await?;
+        #[cfg(sneldb_verif)]
+        crate::verif_hooks::vp("fl_dir_created");
 
         // Move events out of the MemTable without cloning
         let table = self.memtable.take(); // BTreeMap<String, Vec<Event>> grouped by context_id
@@ -102,6 +104,8 @@ impl Flusher {
                 events,
             )
             .await?;
+            #[cfg(sneldb_verif)]
+            crate::verif_hooks::vp("fl_type_written");
         }
 
         // Only append SegmentIndex entry if at least one event type had non-empty events
@@ -120,6 +124,8 @@ impl Flusher {
             }
             .add_segment_entry(None)
             .await?;
+            #[cfg(sneldb_verif)]
+            crate::verif_hooks::vp("fl_index_entry_added");
         } else {
             // No files were written, clean up empty directory
             // Use async I/O for directory removal
